@@ -19,7 +19,11 @@ type rtCase struct {
 	// Rows > 0: generated frame of Rows rows (int id, string s, float f) for the output-size sweep
 	Rows int `json:"rows,omitempty"`
 	// LongCell > 0 (with Rows): the string cell of row 2 has this many bytes
-	LongCell  int         `json:"long_cell,omitempty"`
+	LongCell int `json:"long_cell,omitempty"`
+	// QuotePad > 0: the frame is {id: [0,1,2], s: ["y" x QuotePad, c13QuoteCells[QuoteCell], "z"]}: a cell with runs of quote
+	// characters at a chosen offset of the document (every offset across the reader's buffer refills)
+	QuotePad  int         `json:"quote_pad,omitempty"`
+	QuoteCell int         `json:"quote_cell,omitempty"`
 	Frame     model.Frame `json:"frame"`
 	Shape     int         `json:"shape"`
 	Header    bool        `json:"header"`
@@ -88,7 +92,15 @@ func expectedReadBack(f model.Frame, cols []string, emptyNull bool) model.Frame 
 	return w
 }
 
+var c13QuoteCells = []string{`""`, `a""`, `""b`, `"""`, `""""`, `a"""""b`, `"`, `","`, "\"\n\"", `""",""`}
+
 func runRTCase(c rtCase) *core.Failure {
+	if c.QuotePad > 0 {
+		c.Frame = model.Frame{N: 3, Cols: []model.Col{
+			{Name: "id", Kind: model.Int, Cells: []model.Cell{model.I(0), model.I(1), model.I(2)}},
+			{Name: "s", Kind: model.String, Cells: []model.Cell{model.S(strings.Repeat("y", c.QuotePad)), model.S(c13QuoteCells[c.QuoteCell%len(c13QuoteCells)]), model.S("z")}},
+		}}
+	}
 	if c.Rows > 0 {
 		id := model.Col{Name: "id", Kind: model.Int}
 		sc := model.Col{Name: "s", Kind: model.String}
@@ -195,7 +207,8 @@ func runRTCase(c rtCase) *core.Failure {
 	if c.EmptyNull {
 		rc = append(rc, csv.EmptyNull(true))
 	}
-	back := model.Observe(qframe.ReadCSV(bytes.NewReader(out), rc...))
+	firstRead := qframe.ReadCSV(bytes.NewReader(out), rc...)
+	back := model.Observe(firstRead)
 	want := expectedReadBack(in, cols, c.EmptyNull)
 	if d := model.Diff(want, back); d != "" {
 		return core.Failf("ReadCSV(ToCSV(frame)) differs: %s\n %s\n want: %s\n  got: %s", d, desc, want, back)
@@ -205,6 +218,10 @@ func runRTCase(c rtCase) *core.Failure {
 	again := qframe.ReadCSV(bytes.NewReader(out), rc...)
 	if d := model.Diff(want, model.Observe(again)); d != "" {
 		return core.Failf("a second ReadCSV with the same option values differs: %s\n %s", d, desc)
+	}
+	// the frame returned by the first read is a value of its own: reading again must not change it
+	if now := model.Observe(firstRead); now.String() != back.String() {
+		return core.Failf("the frame returned by the first ReadCSV changed when the document was read a second time:\n before: %s\n  after: %s\n %s", back, now, desc)
 	}
 	for name := range enums {
 		if r := again.Filter(qframe.Filter{Column: name, Comparator: "=", Arg: "~never declared~"}); r.Err == nil && len(enums[name]) > 0 {
@@ -218,7 +235,7 @@ func c13Run(ctx *core.Ctx) {
 	exec := func(c rtCase, outcome string) {
 		ctx.Exec(c, func() *core.Failure { return runRTCase(c) })
 		ctx.Outcome(outcome)
-		ctx.Nontrivial(fmt.Sprintf("%s|%d|%v|%v|%v", c.Frame.String(), c.Shape, c.Header, c.Columns, c.EmptyNull))
+		ctx.Nontrivial(fmt.Sprintf("%s|%d|%v|%v|%v|%d|%d|%d|%d", c.Frame.String(), c.Shape, c.Header, c.Columns, c.EmptyNull, c.Rows, c.LongCell, c.QuotePad, c.QuoteCell))
 		if ctx.WantSample() && ctx.Index()%3511 == 19 {
 			ctx.Sample(map[string]interface{}{"frame": c.Frame.String(), "shape": model.ShapeNames[c.Shape], "header": c.Header, "columns": c.Columns, "empty_null": c.EmptyNull})
 		}
@@ -277,6 +294,14 @@ func c13Run(ctx *core.Ctx) {
 	for rows := 1; rows <= 500; rows++ {
 		if ctx.Mine() {
 			exec(rtCase{Rows: rows, Shape: rows % model.NShapes, Header: rows%2 == 0}, "size-sweep")
+		}
+	}
+	// cells with runs of quote characters starting at every document offset up to 4300 (across the reader's refills)
+	for pad := 1; pad <= 4300; pad++ {
+		for qc := range c13QuoteCells {
+			if ctx.Mine() {
+				exec(rtCase{QuotePad: pad, QuoteCell: qc, Shape: pad % model.NShapes, Header: true}, "quote-runs-at-every-offset")
+			}
 		}
 	}
 	// a very long cell (the reader's buffer has to grow beyond 64 KiB) followed by many short rows
@@ -347,6 +372,45 @@ func c13Run(ctx *core.Ctx) {
 					}
 				}
 			}
+		}
+	}
+	// family D: rows whose cells spell the column names (a data row that looks like the header line), in every
+	// position, for one, two and five columns of every type
+	{
+		look := []model.Col{
+			{Name: "a", Kind: model.String, Cells: []model.Cell{model.S("a"), model.S("b")}},
+			{Name: "7", Kind: model.Int, Cells: []model.Cell{model.I(7), model.I(1)}},
+			{Name: "e", Kind: model.Enum, EnumVals: []string{"x", "e"}, Cells: []model.Cell{model.S("e"), model.S("x")}},
+			{Name: "true", Kind: model.Bool, Cells: []model.Cell{model.B(true), model.B(false)}},
+			{Name: "1.5", Kind: model.Float, Cells: []model.Cell{model.F(1.5), model.F(2)}},
+		}
+		var subsets [][]int
+		for i := range look {
+			subsets = append(subsets, []int{i})
+			for j := i + 1; j < len(look); j++ {
+				subsets = append(subsets, []int{i, j}, []int{j, i})
+			}
+		}
+		subsets = append(subsets, []int{0, 1, 2, 3, 4})
+		for _, sub := range subsets {
+			forEachSeq(3, 2, func(seq []int) {
+				for _, hdr := range []bool{true, false} {
+					for _, en := range []bool{false, true} {
+						if !ctx.Mine() {
+							continue
+						}
+						f := model.Frame{N: 3}
+						for _, ci := range sub {
+							col := model.Col{Name: look[ci].Name, Kind: look[ci].Kind, EnumVals: look[ci].EnumVals}
+							for _, v := range seq {
+								col.Cells = append(col.Cells, look[ci].Cells[v])
+							}
+							f.Cols = append(f.Cols, col)
+						}
+						exec(rtCase{Frame: f, Shape: int(ctx.Index() % int64(model.NShapes)), Header: hdr, EmptyNull: en}, "rows-that-look-like-the-header")
+					}
+				}
+			})
 		}
 	}
 	// family B: three columns of every type combination, reduced alphabets, every column permutation for the writer
